@@ -23,6 +23,7 @@ def jobs(tier):
         mk('C08', 'fw/chain2', S.forward_chain(2, topo='chain'), witnesses=W),
         mk('C08', 'fw/chain2/poll', S.forward_chain(2, topo='chain', poll=True), witnesses=W),
         mk('C08', 'fw/chain3', S.forward_chain(3, topo='chain'), witnesses=W),
+        mk('C08', 'fw/late_await/no_target_handlers', S.fw_late_await(target_handlers=False), witnesses=W),
     ]
     if tier == 'thorough':
         out += [
